@@ -7,7 +7,7 @@
     raises SnmpEncodeError with nothing sent, and the next small request (same and another session) is intact.
 """
 
-from .. import common, drivers, histories, loomx, refber as rb, rsx
+from .. import common, drivers, histories, loomx, mirix, refber as rb, rsx
 from ..drivers import Cfg
 from ..reqoracle import Call, SessionModel, check_request
 
@@ -228,12 +228,15 @@ def run(tier):
         "request size grows monotonically with the swept parameter; privacy adds a second (private) buffer, so for privacy configurations only monotonicity, clean refusal and intact "
         "follow-up requests are required, not one common threshold",
         "(c) loom explores the real pool.rs/buffer.rs (std::sync mapped to loom::sync by a textual shim) for 2-3 threads x 1-3 acquire/release rounds, preemption bound 2-3",
-        "Miri slice (cargo +nightly miri) of the depth-3 enumeration is run in the thorough tier when the nightly toolchain is present",
+        "thorough tier: all 400 depth-2 sequences over a 20-symbol alphabet are replayed under Miri (cargo +nightly miri) as an undefined-behaviour monitor; skipped with a note if the toolchain is absent",
     )
     rep = rsx.run("c17", tier, rec)
     # (c) the shared pool under all interleavings (loom, preemption-bounded)
     for th, rounds, bound in ((2, 2, 3), (3, 1, 2)) + (((3, 2, 2), (2, 3, 3)) if tier == "thorough" else ()):
         loomx.explore(rec, th, rounds, bound)
+    if tier == "thorough":
+        # UB monitor (not the enumerator): the same operation/shadow code over buffer.rs under Miri, depth 2
+        mirix.run(rec, depth=2)
     cap = rec.counters.get("rsx_capacity", 0) or 4080
     # rsx counters are summed per shard-less keys: capacity is reported once
     rec.extra["discovered_capacity"] = cap
